@@ -30,7 +30,8 @@ META = {
         "and raises a paired warning; colon modes and chunking use the right "
         "layout classes; sec_within producer/consumer protocol (tags, FIFO "
         "consumption, prefix on 0 / suffix otherwise, exactly one component, "
-        "warning) and its ordering before tracts are constructed."),
+        "warning) and its ordering before tracts are constructed."
+        ' Also: lock-down of the colon / segment / sec_within settings, require_colon is computed from the locked-down arguments (provenance), the fallback takes over every list parse_safe hands off, side tags of unused text are constants, exhaustive layout dispatch, the settings are known to Config.'),
     'families': ['TBL', 'LOCK', 'ORDER', 'PAIR', 'FORWARD', 'DEADPARAM', 'SIB-DEFAULTS'],
 }
 
